@@ -371,6 +371,11 @@ def install():
         return _real_crandn(size, rng)
     pytenet.mps.crandn = crandn
     pytenet.mpo.crandn = crandn
+    # OpHalfchain hashes (oids, qnums, nidl); a symbolic charge that equals a plain int on some path would hash
+    # differently from it, so the hash is made constant: set/dict lookups then decide by __eq__ (branching).
+    # Semantics-preserving for any hash that is consistent with __eq__ (stated in the evidence).
+    import pytenet.opgraph
+    pytenet.opgraph.OpHalfchain.__hash__ = lambda self: 0
     _installed[0] = True
 
 
